@@ -74,3 +74,23 @@ func init() {
 	}
 	propRegistry = append(propRegistry, c06)
 }
+
+func init() {
+	stubs := map[string]string{
+		"(github.com/tailscale/setec/acl.Rules).Allow": "verifAllowUF",
+		"tailscale.com/atomicfile.WriteFile":            "verifAtomicWrite",
+	}
+	propRegistry = append(propRegistry, &Property{ID: "C09", Pkgs: []string{"db"},
+		Harnesses: []*HarnessSpec{{Name: "verifHarnessC09GetConditional", Pkg: "db", Stubs: stubs,
+			Params: map[string]int{"secrets": 2, "versions": 3}, ThoroughParams: map[string]int{"secrets": 3, "versions": 4},
+			ExpectReach: []string{"end-absent", "end-same", "end-changed"}, Desc: "DB.GetConditional: not-changed iff active version == V"}},
+		Bounds: map[string]string{"secrets_per_state": "2 / 3", "versions_per_secret": "3 / 4", "V": "any 32-bit value"}})
+	c14 := &Property{ID: "C14", Pkgs: []string{"db"}, Bounds: map[string]string{"secrets_per_state": "2 / 3", "versions_per_secret": "2 / 3"}}
+	for _, n := range []string{"List", "Info", "Get", "GetConditional", "GetVersion", "Put", "Activate", "DeleteVersion", "Delete", "Path", "WriteGen"} {
+		c14.Harnesses = append(c14.Harnesses, &HarnessSpec{Name: "verifHarnessC14" + n, Pkg: "db", Stubs: dbStubs,
+			Params: map[string]int{"secrets": 2, "versions": 2}, ThoroughParams: map[string]int{"secrets": 3, "versions": 3},
+			ExpectReach: []string{"end"}, NoNative: "lock-set ghost state has no native counterpart",
+			Desc: "DB." + n + ": every access to kv state under db.mu, one critical section, released on every path, save under the lock"})
+	}
+	propRegistry = append(propRegistry, c14)
+}
